@@ -6,9 +6,11 @@
 // declares a deadlock only when the I/O counters (/proc/<pid>/io rchar+wchar) of worker and child have not
 // moved for 10 s plus the sleeps the case itself asks for.
 //
-// Link with -Wl,--wrap=fork,--wrap=waitpid,--wrap=poll,--wrap=read,--wrap=write: parent-side delay plans.
+// Link with -Wl,--wrap=fork,--wrap=waitpid,--wrap=poll,--wrap=read,--wrap=write,--wrap=kill: parent-side delay
+// plans, and the bookkeeping for calls made under periodic signals (see "ambient periodic signals" below).
 #include <poll.h>
 #include <sys/mman.h>
+#include <sys/time.h>
 #include <sys/prctl.h>
 #include <sys/wait.h>
 
@@ -29,6 +31,7 @@ pid_t __real_waitpid(pid_t pid, int* status, int options);
 int __real_poll(struct pollfd* fds, nfds_t nfds, int timeout);
 ssize_t __real_read(int fd, void* buf, size_t n);
 ssize_t __real_write(int fd, const void* buf, size_t n);
+int __real_kill(pid_t pid, int sig);
 }
 
 // ---------------------------------------------------------------- shared state, delay plan, interposed calls
@@ -78,11 +81,12 @@ static char proc_state(pid_t pid) {
 }
 
 static void perform_delay(const DelayEntry& d) {
+  uint64_t t0 = mono_us();
   if (d.action == ACT_SLEEP) {
-    usleep(d.arg);
+    // a periodic signal cuts usleep short: sleep the rest
+    for (uint64_t t = t0; t - t0 < d.arg; t = mono_us()) usleep(d.arg - (t - t0));
     return;
   }
-  uint64_t t0 = mono_us();
   while (mono_us() - t0 < kSyncBoundUs) {
     pid_t pid = g_shared ? g_shared->child_pid : 0;
     if (pid <= 0) return;
@@ -113,13 +117,84 @@ static inline void delay_hook(uint64_t kind) {
     }
 }
 
+// ---- ambient periodic signals: the calling process receives SIGALRM every `period_us` (ITIMER_REAL, a handler that
+// does nothing, installed WITHOUT SA_RESTART, so a blocking poll/waitpid/read really fails with EINTR) from the moment
+// the child has been forked until the call under test has returned. Interval timers are not inherited through fork
+// and exec resets the handler, so the child never sees a tick; arming after fork() also keeps a slow fork (which the
+// kernel restarts from scratch whenever a signal arrives) out of the picture.
+//
+// The "a timeout ends the child" clause under signals is decided without a wall clock: `eintr_polls` counts the
+// parent's poll() calls that a tick interrupted. The k-th tick cannot come earlier than k periods after arming, so
+// eintr_polls * period is a LOWER bound of the time that has passed since the child was started, and each of those
+// returns was an opportunity for the caller to look at its clock. A caller that has not signalled the child although
+// eintr_polls * period exceeds timeout + kTimeoutGraceUs has missed its timeout by more than the grace - however
+// loaded the machine is, because a starved parent handles fewer ticks, not more. At that point the ticks stop (the
+// stream is finite), so that a caller which only works while nobody interrupts it still returns and gets its verdict
+// from the oracle instead of from the deadlock watchdog.
+static constexpr uint64_t kTimeoutGraceUs = 2000000; // run_process documents a 1 s poll granularity; twice that
+struct TickState {
+  uint64_t period_us = 0; // 0: this case runs without signals
+  uint64_t timeout_us = 0; // the timeout handed to the call under test (0: none)
+  bool in_call = false;
+  bool timer_running = false;
+  uint64_t eintr_polls = 0; // poll() calls of the caller that failed with EINTR
+  uint64_t kills = 0; // signals the caller has sent to its child
+  uint64_t eintr_polls_at_first_kill = 0;
+  int first_kill_signal = 0;
+  bool gave_up = false; // the ticks were stopped because the caller had overrun timeout + grace without a kill
+};
+static TickState g_tick;
+static volatile sig_atomic_t g_ticks_handled = 0;
+static void on_tick(int) { g_ticks_handled = g_ticks_handled + 1; }
+
+static void tick_timer(uint64_t period_us) {
+  struct itimerval it;
+  it.it_interval.tv_sec = it.it_value.tv_sec = period_us / 1000000;
+  it.it_interval.tv_usec = it.it_value.tv_usec = period_us % 1000000;
+  setitimer(ITIMER_REAL, &it, nullptr);
+  g_tick.timer_running = period_us != 0;
+}
+// before the call under test: install the handler; the timer itself starts in the parent branch of fork()
+static void tick_begin(uint64_t period_us, uint64_t timeout_us) {
+  g_tick = TickState();
+  g_tick.period_us = period_us;
+  g_tick.timeout_us = timeout_us;
+  g_tick.in_call = true;
+  if (!period_us) return;
+  struct sigaction sa;
+  memset(&sa, 0, sizeof(sa));
+  sa.sa_handler = on_tick;
+  sigemptyset(&sa.sa_mask);
+  sa.sa_flags = 0; // no SA_RESTART
+  sigaction(SIGALRM, &sa, nullptr);
+}
+// after the call under test: stop the timer, drop a tick that may still be pending, restore the default disposition
+static void tick_end() {
+  g_tick.in_call = false;
+  if (!g_tick.period_us) return;
+  tick_timer(0);
+  signal(SIGALRM, SIG_IGN); // discards a pending SIGALRM
+  signal(SIGALRM, SIG_DFL);
+}
+
 extern "C" pid_t __wrap_fork(void) {
   pid_t p = __real_fork();
   if (p > 0 && g_shared && g_delay.armed) {
     g_shared->child_pid = p;
     g_shared->forks = g_shared->forks + 1;
+    if (g_tick.in_call && g_tick.period_us) tick_timer(g_tick.period_us);
   }
   return p;
+}
+extern "C" int __wrap_kill(pid_t pid, int sig) {
+  if (g_tick.in_call && sig != 0 && g_shared && pid > 0 && pid == g_shared->child_pid) {
+    if (g_tick.kills == 0) {
+      g_tick.eintr_polls_at_first_kill = g_tick.eintr_polls;
+      g_tick.first_kill_signal = sig;
+    }
+    g_tick.kills++;
+  }
+  return __real_kill(pid, sig);
 }
 extern "C" pid_t __wrap_waitpid(pid_t pid, int* status, int options) {
   delay_hook(D_WAITPID);
@@ -127,7 +202,16 @@ extern "C" pid_t __wrap_waitpid(pid_t pid, int* status, int options) {
 }
 extern "C" int __wrap_poll(struct pollfd* fds, nfds_t nfds, int timeout) {
   delay_hook(D_POLL);
-  return __real_poll(fds, nfds, timeout);
+  int r = __real_poll(fds, nfds, timeout);
+  if (r < 0 && errno == EINTR && g_tick.in_call && g_tick.timer_running) {
+    g_tick.eintr_polls++;
+    if (g_tick.timeout_us && g_tick.kills == 0 && g_tick.eintr_polls * g_tick.period_us > g_tick.timeout_us + kTimeoutGraceUs + g_tick.period_us) {
+      g_tick.gave_up = true;
+      tick_timer(0);
+    }
+    errno = EINTR;
+  }
+  return r;
 }
 extern "C" ssize_t __wrap_read(int fd, void* buf, size_t n) {
   delay_hook(D_READ);
@@ -143,6 +227,9 @@ extern "C" ssize_t __wrap_write(int fd, const void* buf, size_t n) {
 enum Flags : uint64_t { FL_CHECK = 1, // run_process(check = true)
   FL_NO_STDIN = 2, // run_process(stdin_data = nullptr)
   FL_STDERR_FILE = 4 }; // communicate: the child's stderr goes to a file instead of an unread pipe
+// bits 8..11 of the flags: extra identical run_process calls; bits 16..23: period in ms of the ambient SIGALRM stream (0 = none)
+static inline uint64_t tick_period_us(uint64_t flags) { return ((flags >> 16) & 0xFF) * 1000; }
+static inline uint64_t tick_flag(uint64_t ms) { return (ms & 0xFF) << 16; }
 
 struct Model {
   std::string out, err;
@@ -152,6 +239,7 @@ struct Model {
   bool never_exits = false;
   bool ignores_term = false;
   bool closes_stdin_early = false;
+  uint64_t descendant_holds = 0; // descriptors (bit per fd 0..2) a background descendant keeps open after the child has exited
   uint64_t sleep_us = 0; // sleeping the script asks for
   bool sleep_after_last_write = false;
 };
@@ -208,6 +296,10 @@ static Model build_model(const std::vector<Op>& ops, const std::string& payload,
         if (op.a[0] == SIGTERM) m.ignores_term = true;
         break;
       case 'Z': m.never_exits = true; return m;
+      case 'G': // the descendant writes nothing: the child's own bytes and status are what the call owes
+        for (int fd = 0; fd < 3; fd++)
+          if (((op.a[0] >> fd) & 1) && !closed[fd]) m.descendant_holds |= 1u << fd;
+        break;
       default: throw std::logic_error("script: unknown op");
     }
   }
@@ -274,6 +366,7 @@ static CaseSpec decode(const Case& c) {
     if (d.kind > 3 || d.action > 2 || (d.action == ACT_SLEEP && d.arg > 100000)) throw std::logic_error("case: bad delay entry");
     s.plan.push_back(d);
   }
+  if (tick_period_us(s.flags) && tick_period_us(s.flags) < 10000) throw std::logic_error("case: signal period below 10 ms");
   return s;
 }
 
@@ -340,6 +433,18 @@ static void check_no_children(const char* api) {
   VFAIL(cat(api, "-zombie"), "after the call child ", r, " had not been reaped (status ", st, ")");
 }
 
+// "A timeout ends the child", for a caller that receives periodic signals: see the comment at TickState.
+static void check_timeout_under_signals(const char* api, uint64_t timeout_us) {
+  if (!g_tick.period_us || !timeout_us) return;
+  const uint64_t lower_bound_us = (g_tick.kills ? g_tick.eintr_polls_at_first_kill : g_tick.eintr_polls) * g_tick.period_us;
+  if (g_tick.gave_up || (g_tick.kills && lower_bound_us > timeout_us + kTimeoutGraceUs)) {
+    VFAIL(cat(api, "-timeout-overrun-under-signals"), "the timeout is ", timeout_us, " us and the caller receives SIGALRM every ", g_tick.period_us, " us: ",
+        g_tick.gave_up ? cat(g_tick.eintr_polls, " of its poll() calls had been interrupted") : cat(g_tick.eintr_polls_at_first_kill, " of its poll() calls had been interrupted before it first signalled the child (signal ", g_tick.first_kill_signal, ")"),
+        ", so at least ", lower_bound_us, " us had passed since the child was started", g_tick.gave_up ? cat(" and the child had still not been signalled (the signals were then stopped; afterwards the caller sent ", g_tick.kills, " signal(s))") : std::string(),
+        " - more than the timeout plus ", kTimeoutGraceUs, " us of grace");
+  }
+}
+
 // Executed in the forked worker. Throws verif::Fail on an oracle violation.
 static void evaluate(const Case& c, Outcome& o) {
   CaseSpec s = decode(c);
@@ -365,7 +470,11 @@ static void evaluate(const Case& c, Outcome& o) {
   o.classes.push_back(s.api == 0 ? "api:run_process" : s.timeout_us ? "api:communicate+deadline" : "api:communicate");
   o.classes.push_back(payload.size() > 65536 ? "payload:>64K" : payload.empty() ? "payload:0" : "payload:<=64K");
   if (!s.plan.empty()) o.classes.push_back("delay-plan");
-  o.nontrivial = payload.size() > 65536 || m.out.size() > 65536 || m.err.size() > 65536 || (!s.plan.empty() && !m.sleep_after_last_write && !m.never_exits);
+  const uint64_t tick_us = tick_period_us(s.flags);
+  if (tick_us) o.classes.push_back(s.timeout_us && m.never_exits ? "signals:timeout-must-fire" : "signals");
+  if (m.descendant_holds & 6) o.classes.push_back(s.timeout_us ? "descendant-holds-output:timeout-given" : "descendant-holds-output:no-timeout");
+  o.nontrivial = payload.size() > 65536 || m.out.size() > 65536 || m.err.size() > 65536 || (!s.plan.empty() && !m.sleep_after_last_write && !m.never_exits) ||
+      (m.descendant_holds & 6) || (tick_us && m.never_exits);
 
   if (s.api == 0) {
     const char* api = "run-process";
@@ -381,14 +490,17 @@ static void evaluate(const Case& c, Outcome& o) {
     bool threw = false;
     std::string what;
     g_delay.armed = true;
+    tick_begin(tick_us, s.timeout_us);
     try {
       res = phosg::run_process(cmd, (s.flags & FL_NO_STDIN) ? nullptr : &payload, check, nullptr, nullptr, s.timeout_us);
     } catch (const std::runtime_error& e) {
       threw = true;
       what = e.what();
     }
+    tick_end();
     g_delay.armed = false;
     std::set<int> after = open_fds();
+    check_timeout_under_signals(api, s.timeout_us);
     int want_status = m.never_exits ? (m.ignores_term ? SIGKILL : SIGTERM) : m.status;
     bool want_throw = check && want_status != 0;
     if (threw && !want_throw) {
@@ -435,6 +547,9 @@ static void evaluate(const Case& c, Outcome& o) {
     } else if (m.err.size() > 32768) {
       throw std::logic_error("case: communicate does not read stderr; more than 32 KiB into an unread pipe blocks the child by design");
     }
+    // communicate reads stdout to end-of-file and writes until stdin is closed; what it owes while another process keeps
+    // one of those pipes open is not stated: under communicate a descendant may only hold stderr
+    if (m.descendant_holds & 3) throw std::logic_error("case: communicate with a descendant that keeps stdin or stdout open is outside the exercised domain");
     bool want_throw = m.never_exits;
     bool threw = false;
     std::string what, out;
@@ -442,7 +557,8 @@ static void evaluate(const Case& c, Outcome& o) {
     pid_t child = -1;
     {
       g_delay.armed = true;
-      phosg::Subprocess sp(cmd, -1, -1, err_fd);
+      tick_begin(tick_us, s.timeout_us);
+      phosg::Subprocess sp(cmd, -1, -1, err_fd); // the signal stream starts in fork(), i.e. only when this succeeded
       child = sp.pid();
       try {
         out = sp.communicate(payload, s.timeout_us); // std::string overload (a literal would bind to the void* one)
@@ -451,12 +567,14 @@ static void evaluate(const Case& c, Outcome& o) {
         threw = true;
         what = e.what();
       }
+      tick_end();
       g_delay.armed = false;
       // the descriptors the object still holds are ours to close (Subprocess never closes them)
       for (int fd : {sp.stdin_fd(), sp.stdout_fd(), sp.stderr_fd()})
         if (fd >= 0) ::close(fd);
     }
     if (err_fd >= 0) ::close(err_fd);
+    check_timeout_under_signals(api, s.timeout_us);
     if (threw && !want_throw) {
       VFAIL(cat(api, "-threw:", why_class(what), s.timeout_us ? ":deadline-not-reached" : ":no-deadline"), "communicate threw although the child exits by itself", s.timeout_us ? cat(" long before the ", s.timeout_us, " us deadline") : std::string(" and no deadline was given"), ": ", what.substr(0, 300));
     }
@@ -776,7 +894,7 @@ static Case gen_subprocess() {
   Draft d;
   d.api = vg::below(2);
   bool comm = d.api == 1;
-  uint64_t b = vg::pick<uint64_t>({0, 0, 1, 1, 2, 2, 2, 3, 3, 3, 4, 5, 5, 5, 6, 7, 7, 8, 9, 10, 11, 11});
+  uint64_t b = vg::pick<uint64_t>({0, 0, 1, 1, 2, 2, 2, 3, 3, 3, 4, 5, 5, 5, 6, 7, 7, 8, 8, 9, 10, 11, 11, 12});
   d.behaviour = b;
   d.payload = gen_volume(4u << 20);
   if (comm) {
@@ -839,6 +957,17 @@ static Case gen_subprocess() {
       d.script += fin;
       break;
     }
+    case 12: { // starts a background descendant that inherits the output pipes and outlives the child (a daemon, `cmd &`)
+      // what the descendant keeps open: stdout and/or stderr, sometimes stdin too; only stderr under communicate
+      uint64_t mask = comm ? 4 : vg::pick<uint64_t>({6, 6, 2, 4});
+      if (!comm && vg::chance(1, 4)) mask |= 1;
+      d.script = (vg::coin() ? "E;" : "") + wg(1, gen_volume(200000)) + maybe_err() + cat("G", mask, ",120;");
+      if (vg::coin()) d.script += cat("S", vg::pick<uint64_t>({1, 20, 100, 300}), ";"); // lingers, silent
+      if (vg::chance(1, 3)) d.script += wg(1, gen_volume(70000)); // or says something more
+      if (vg::chance(1, 4)) d.script += "C1;C2;";
+      d.script += vg::chance(1, 6) ? cat("K", vg::pick<uint64_t>({SIGKILL, SIGTERM, SIGUSR1})) : fin;
+      break;
+    }
     default: {
       uint64_t n = 2 + vg::below(7);
       uint64_t errs = 0;
@@ -861,7 +990,9 @@ static Case gen_subprocess() {
       break;
     }
   }
-  if (!comm && b != 8 && d.payload <= 70000 && vg::chance(1, 4)) d.flags |= (1 + vg::below(3)) << 8; // 1..3 extra calls
+  if (!comm && b != 8 && b != 12 && d.payload <= 70000 && vg::chance(1, 4)) d.flags |= (1 + vg::below(3)) << 8; // 1..3 extra calls
+  // ambient periodic signals in the calling process: half of the calls whose timeout has to fire, a sixth of the rest
+  if (b == 8 ? vg::coin() : vg::chance(1, 6)) d.flags |= tick_flag(vg::pick<uint64_t>({30, 50, 70, 100}));
   // parent-side sleeps at the k-th waitpid/poll/read/write
   if (vg::coin()) {
     uint64_t n = 1 + vg::below(3);
@@ -948,6 +1079,37 @@ static void enum_grid(Enum& e) {
       d.script = w(1, 1000) + "Z";
       if (e.mine(idx++)) e.exec(d.to_case(44));
     }
+    for (uint64_t period_ms : {30, 100}) {
+      Draft d; // never exits, and the caller is interrupted by a signal several times per poll period
+      d.api = v.api;
+      d.flags = v.flags | tick_flag(period_ms);
+      d.timeout = 200000;
+      d.payload = 10;
+      d.behaviour = 8;
+      d.script = w(1, 1000) + "Z";
+      if (e.mine(idx++)) e.exec(d.to_case(46));
+    }
+    {
+      Draft d; // cat under periodic signals: every byte still arrives
+      d.api = v.api;
+      d.flags = v.flags | tick_flag(30);
+      d.timeout = v.timeout;
+      d.payload = 300000;
+      d.behaviour = 2;
+      d.script = "P4096;S150;X0";
+      if (e.mine(idx++)) e.exec(d.to_case(47));
+    }
+    for (uint64_t linger_ms : {0, 200}) {
+      Draft d; // the child leaves a background descendant behind that holds the output pipes (stderr only under communicate)
+      d.api = v.api;
+      d.flags = v.flags;
+      d.timeout = v.timeout;
+      d.payload = 1000;
+      d.behaviour = 12;
+      d.script = "E;" + w(1, 5000) + w(2, 300) + cat("G", v.api == 1 ? 4 : 6, ",120;S", linger_ms, ";X", v.timeout ? 3 : 0);
+      if (v.flags & FL_CHECK) d.flags &= ~static_cast<uint64_t>(FL_CHECK);
+      if (e.mine(idx++)) e.exec(d.to_case(48));
+    }
   }
   {
     Draft d; // four run_process calls in a row: the descriptor table must come back to where it started every time
@@ -958,7 +1120,7 @@ static void enum_grid(Enum& e) {
     d.script = "P0;" + w(2, 100) + "X0";
     if (e.mine(idx++)) e.exec(d.to_case(45));
   }
-  e.complete("payload sizes {0,1,4095,4096,65535,65536,65537,1 MiB} x {read-all-then-write, write-then-read, cat, exit-before-the-parent-polls} x {run_process, run_process+check+timeout, communicate, communicate+deadline}; plus 4 MiB through cat, early stdin close, non-zero status/signal, never-exiting child with a timeout, four run_process calls in a row");
+  e.complete("payload sizes {0,1,4095,4096,65535,65536,65537,1 MiB} x {read-all-then-write, write-then-read, cat, exit-before-the-parent-polls} x {run_process, run_process+check+timeout, communicate, communicate+deadline}; plus 4 MiB through cat, early stdin close, non-zero status/signal, never-exiting child with a timeout (also while the caller receives SIGALRM every 30 / 100 ms), cat under periodic signals, a child that leaves a descendant holding the output pipes, four run_process calls in a row");
 }
 
 int main(int argc, char** argv) {
